@@ -40,6 +40,9 @@ partial def expr? : Sexp → Option Expr
   | .list [.atom "exit", e] => do pure (.exit (← expr? e))
   | .list (.atom "call" :: f :: args) => do pure (.call (← f.nat?) (← args.mapM expr?))
   | .list [.atom "wideratio", .list ns, .list ds] => do pure (.wideRatio (← ns.mapM expr?) (← ds.mapM expr?))
+  | .list [.atom "substring", a, b, c] => do pure (.substring (← expr? a) (← expr? b) (← expr? c))
+  | .list [.atom "extract", a, b, c] => do pure (.extract (← expr? a) (← expr? b) (← expr? c))
+  | .list [.atom "suffix", a, b] => do pure (.suffix (← expr? a) (← expr? b))
   | .list [.atom "note"] => some (.note none)
   | .list [.atom "note", e] => do pure (.note (some (← expr? e)))
   | .list [.atom "nonce", h, e] => do pure (.nonce (← h.hex?) (← expr? e))
